@@ -174,9 +174,20 @@ impl<T, E1> ExtFut<Result<T, E1>> {
 
 // ---- time / runtime ---------------------------------------------------------------------------------------
 #[derive(Clone, Copy)]
-pub struct Duration { pub nanos: u128 }
+pub struct Duration { pub secs: u64, pub nanos: u32 }
 impl Duration {
-    pub fn as_nanos(&self) -> (r: u128) ensures r == self.nanos { self.nanos }
+    // the whole duration in nanoseconds
+    pub open spec fn total(self) -> int { self.secs as int * 1_000_000_000 + self.nanos as int }
+    #[verifier::external_body]
+    pub fn as_nanos(&self) -> (r: u128) ensures r == self.total() { unimplemented!() }
+    pub fn as_secs(&self) -> (r: u64) ensures r == self.secs { self.secs }
+    pub fn subsec_nanos(&self) -> (r: u32) ensures r == self.nanos { self.nanos }
+    #[verifier::external_body]
+    pub fn as_millis(&self) -> (r: u128) ensures r == self.total() / 1_000_000 { unimplemented!() }
+    #[verifier::external_body]
+    pub fn subsec_millis(&self) -> (r: u32) ensures r == self.nanos / 1_000_000 { unimplemented!() }
+    #[verifier::external_body]
+    pub fn is_zero(&self) -> (r: bool) ensures r == (self.total() == 0) { unimplemented!() }
 }
 
 #[derive(Clone, Copy)]
